@@ -171,7 +171,7 @@ class Ctx:
     # ---------------------------------------------------------------- finish
     def finish(self, level='model_checking'):
         known = load_known(self.pid)
-        rc = 0; lines = []
+        rc = 0; lines = []; inconclusive = False
         reported = set()
         viols_out = []
         rdir = os.path.join(VERIF, 'replays', self.pid)
@@ -184,7 +184,7 @@ class Ctx:
             status = 'not-replayed'
             if rep is not None:
                 os.makedirs(rdir, exist_ok=True)
-                ok = run_replay(self.pid, rep)
+                ok = run_replay(self.pid, rep, k)
                 if ok is True: status = 'reproduced'; self.replayed += 1
                 elif ok is False: status = 'NOT-reproduced'
             os.makedirs(rdir, exist_ok=True)
@@ -195,14 +195,15 @@ class Ctx:
             viols_out.append({'clause': v['clause'], 'key': k, 'native_replay': status, 'path': path})
             if status == 'NOT-reproduced':
                 lines.append('INCONCLUSIVE property=%s counterexample does not reproduce natively: %s (%s)' % (self.pid, k, path))
-                rc = max(rc, 2); continue
+                inconclusive = True; continue
             kf = [x for x in known if x.get('status', 'known') == 'known' and key_matches(x['key'], k)]
             if kf:
                 lines.append('KNOWN-FINDING: property=%s %s [%s]' % (self.pid, kf[0].get('what', k), k))
             else:
                 lines.append('VIOLATION property=%s replay=%s' % (self.pid, path))
                 lines.append('  clause=%s key=%s witness=%s' % (v['clause'], k, json.dumps(v['witness'], default=str)[:600]))
-                rc = max(rc, 1) if rc != 2 else 2
+                rc = 1
+        if rc == 0 and inconclusive: rc = 2
         for l in lines: print(l)
         ev = {
             'property_id': self.pid, 'tier': self.tier, 'seed': self.seed, 'level': level,
@@ -273,11 +274,11 @@ def key_matches(pattern, key):
     return pattern == key or fnmatch.fnmatchcase(key, pattern)
 
 
-def run_replay(pid, rep):
+def run_replay(pid, rep, key=None):
     """rep: {'kind': ..., ...}; dispatch to vlib.replay"""
     try:
         from vlib import replay
-        return replay.run(pid, rep)
+        return replay.run(pid, rep, key)
     except Exception as ex:
         print('[replay] error: %s' % ex, file=sys.stderr)
         return None
@@ -294,7 +295,7 @@ def main(argv):
     seed = int(os.environ.get('VERIF_SEED', '0') or 0)
     if rp:
         d = json.load(open(rp))
-        ok = run_replay(pid, d.get('replay')) if d.get('replay') else None
+        ok = run_replay(pid, d.get('replay'), d.get('key')) if d.get('replay') else None
         print('replay of %s: %s' % (rp, {True: 'reproduced', False: 'NOT reproduced', None: 'no native replay available for this witness'}[ok]))
         print(json.dumps(d.get('witness'), indent=1, default=str)[:3000])
         return 1 if ok else 0
